@@ -35,6 +35,7 @@ structure Mon where
   shutdowns : Nat := 0
   pauseAt : Option Nat := none
   pauseCalls : Nat := 0
+  effCalls : Nat := 0         -- Pause() calls made while the Batcher was certainly started and not paused, or possibly so
   pauseEvents : Nat := 0
   stale : Bool := false            -- a cost changed / an audit reset happened: demand monitors stop
   auditFail : Bool := false
@@ -122,7 +123,12 @@ def monitorHist (sc : HScn) (entries : List String) : List (String × String) :=
       if a2 == "P" then
         -- effective iff the Batcher is running and not paused (and nobody is stopping it concurrently)
         let eff := m.started.isSome && !m.paused && m.shutdownAt.isNone && !m.stopAsked && !m.expectPause
-        m := { m with pauseCalls := m.pauseCalls + 1, expectPause := m.expectPause || eff }
+        -- possibly effective: while a Stop() is in progress, or at the very instant of the resume (the phase is set back
+        -- to started just before the resume event is raised)
+        let atResume := m.paused && (m.pauseAt.map fun p => decide (t == p + sc.c.pause)) == some true
+        let maybe := m.started.isSome && m.shutdownAt.isNone && !m.expectPause && ((m.stopAsked && !m.paused) || atResume)
+        m := { m with pauseCalls := m.pauseCalls + 1, expectPause := m.expectPause || eff,
+                      effCalls := m.effCalls + (if eff || maybe then 1 else 0) }
       else if a2 == "m" then m := { m with maxcap := some n3, maxcapAt := t }
       else if a2 == "F" then
         if (m.paused || m.started.isNone) && m.shutdownAt.isNone then m := { m with flushHeld := true }
@@ -194,6 +200,7 @@ def monitorHist (sc : HScn) (entries : List String) : List (String × String) :=
         if n3 != sc.pauseMs then m := m.add "C13" "pause-event-value"
         m := { m with pauseAt := some t, pauseEvents := m.pauseEvents + 1, paused := true, expectPause := false }
         if m.pauseEvents > m.pauseCalls then m := m.add "C13" "more-pauses-than-effective-calls"
+        else if m.pauseEvents > m.effCalls then m := m.add "C13" "pause-taken-for-a-call-made-while-already-paused"
       else if a2 == "resume" then
         if (!sc.c.limited && sc.c.mcb == 0 && sc.emitBatch && m.flushHeld &&
           (m.calls.any fun c => c.res == some "ok" && c.delivered.isNone)) then m := { m with expectCycleAt := some t }
